@@ -35,6 +35,7 @@ type c09world struct {
 }
 
 const c09Password = "c09-password-Pa55"
+const c09FarRealm, c09FarSPN = "FAR.C09.TEST.GOKRB5", "HTTP/svc.far.example"
 
 func newC09World(et int32, noaddr bool, origin time.Time, preauth bool) (*c09world, error) {
 	realm := "C09.TEST.GOKRB5"
@@ -50,13 +51,24 @@ func newC09World(et int32, noaddr bool, origin time.Time, preauth bool) (*c09wor
 	if _, err := k.addPrincipal(realm, "HTTP/svc.c09.test", "svc-secret", []int32{18, 17, 23, 16, 19, 20}); err != nil {
 		return nil, err
 	}
+	// a service in another realm, reached through one referral (kind TGSREF: the perturbed reply is the referral itself)
+	if _, err := k.addPrincipal(c09FarRealm, "krbtgt/"+c09FarRealm, "far-krbtgt-secret", []int32{18, 17, 23, 16, 19, 20}); err != nil {
+		return nil, err
+	}
+	if _, err := k.addPrincipal(realm, "krbtgt/"+c09FarRealm, "cross-realm-secret", []int32{18, 17, 23, 16, 19, 20}); err != nil {
+		return nil, err
+	}
+	if _, err := k.addPrincipal(c09FarRealm, c09FarSPN, "far-svc-secret", []int32{18, 17, 23, 16, 19, 20}); err != nil {
+		return nil, err
+	}
+	k.policy.Referrals = map[string][]string{c09FarSPN: {realm, c09FarRealm}}
 	addr, err := k.listen()
 	if err != nil {
 		return nil, err
 	}
 	lib := map[string]string{"default_tkt_enctypes": etypeNames[et], "default_tgs_enctypes": etypeNames[et], "permitted_enctypes": etypeNames[et],
 		"udp_preference_limit": "1", "noaddresses": fmt.Sprint(noaddr), "clockskew": "300"}
-	cfg, err := config.NewFromString(simConf(realm, map[string][]string{realm: {addr}}, lib, map[string]string{".c09.test": realm}))
+	cfg, err := config.NewFromString(simConf(realm, map[string][]string{realm: {addr}, c09FarRealm: {addr}}, lib, map[string]string{".c09.test": realm}))
 	if err != nil {
 		return nil, err
 	}
@@ -126,7 +138,7 @@ func cmdC09(args []string) error {
 					if len(c.Devs) > 1 && !thorough {
 						continue
 					}
-					for _, kind := range []string{"AS", "TGS"} {
+					for _, kind := range []string{"AS", "TGS", "TGSREF"} {
 						cred := []string{"password", "keytab"}[(ci+pi)%2]
 						if thorough || len(c.Devs) == 0 {
 							for _, cr := range []string{"password", "keytab"} {
@@ -153,6 +165,11 @@ func (w *c09world) runCase(tw *traceWriter, kind, cred, reqAddrs string, preauth
 	line := map[string]interface{}{"ev": "reply", "kind": kind, "cred": cred, "reqAddrs": reqAddrs, "preauth": preauth, "et": w.et, "p": c.P, "devs": c.Devs}
 	cl := w.newClient(cred)
 	setupOK := true
+	spn := "HTTP/svc.c09.test"
+	if kind == "TGSREF" {
+		// the first TGS reply of this exchange is a referral to the other realm: that is the reply the KDC perturbs
+		kind, spn = "TGS", c09FarSPN
+	}
 	var pert *perturbation
 	if len(c.Devs) > 0 {
 		// the simulated KDC applies single perturbations; pairs are applied one after the other on the same reply
@@ -190,13 +207,13 @@ func (w *c09world) runCase(tw *traceWriter, kind, cred, reqAddrs string, preauth
 			if err := c0.Login(); err != nil {
 				setupOK = false
 			}
-			if _, _, err := c0.GetServiceTicket("HTTP/svc.c09.test"); err != nil {
+			if _, _, err := c0.GetServiceTicket(spn); err != nil {
 				setupOK = false
 			}
 			c0.Destroy()
 		}
 		apply()
-		p = catch(func() { _, _, opErr = cl.GetServiceTicket("HTTP/svc.c09.test") })
+		p = catch(func() { _, _, opErr = cl.GetServiceTicket(spn) })
 	}
 	errText := ""
 	if opErr != nil {
